@@ -73,6 +73,25 @@ class Aug(nn.Module):
         return torch.cat([g, torch.zeros(y.shape[0], 1, g.shape[-1], dtype=y.dtype)], dim=1)
 
 
+class SignFlipped(nn.Module):
+    """A diagonal program with the sign of every second diffusion entry flipped (negative entries are legitimate)."""
+
+    def __init__(self, prog):
+        super().__init__()
+        self.prog = prog
+        self.noise_type, self.sde_type, self.d, self.m = prog.noise_type, prog.sde_type, prog.d, prog.m
+        self.sign = torch.tensor([(-1.0) ** k for k in range(prog.d)], dtype=torch.float64)
+
+    def f(self, t, y):
+        return self.prog.f(t, y)
+
+    def g(self, t, y):
+        return self.prog.g(t, y) * self.sign
+
+    def h(self, t, y):
+        return self.prog.h(t, y)
+
+
 class ExactFamily(nn.Module):
     """f - h = g c for a constant vector c and a full-column-rank g."""
 
@@ -87,7 +106,8 @@ class ExactFamily(nn.Module):
 
     def g(self, t, y):
         if self.noise_type == 'diagonal':
-            return 0.8 + 0.2 * torch.sin(y)
+            # mixed signs: a diagonal diffusion entry may be negative
+            return (0.8 + 0.2 * torch.sin(y)) * torch.tensor([1.0, -0.9, 1.2], dtype=y.dtype)
         base = self.G.unsqueeze(0).expand(y.shape[0], -1, -1)
         if self.noise_type == 'additive':
             return base * (1 + 0.1 * torch.as_tensor(t, dtype=y.dtype))
@@ -117,7 +137,10 @@ def unit_fn(unit):
     lattice = [0., 0.25, 0.5, 0.75, 1.0]
     B = 2
     with torch.no_grad():
-        for pname, prog in zoo.programs(nt, st, 'quick')[:unit.get('nprog', 1)]:
+        plist = zoo.programs(nt, st, 'quick')[:unit.get('nprog', 1)]
+        if nt == 'diagonal':
+            plist = plist + [(plist[0][0] + '-signflipped', SignFlipped(plist[0][1]))]
+        for pname, prog in plist:
             y0 = zoo.y0_for(prog, B)
             mm = prog.d if nt == 'diagonal' else prog.m
             for dt in (0.25, 0.125, 0.3):
